@@ -46,7 +46,7 @@ def run(ctx):
     mon = monitors.Monitors(ctx, F)
     mon.attach_fit()
     fit = F.mef.fit_beads_autofluorescence
-    n = 1200 if ctx.tier == 'quick' else 30000
+    n = 1200 if ctx.tier == 'quick' else 100000
     ms = np.linspace(0.85, 1.25, 9)
     bs = np.linspace(0, 7, 8)
     autos = [0, 1, 10, 100, 1000, 5000]
